@@ -104,6 +104,10 @@ def generate(rng, seed, part):
             ops.append({"op": "merge", "a": a, "amount": rng.choice([2, 3]), "inplace": rng.random() < 0.5,
                         "out": nodes})
             nodes += 1
+        elif r < 0.67 and ndim == 2:
+            ops.append({"op": "partial_normalize", "a": a, "axis": rng.choice([0, 1]), "inplace": rng.random() < 0.5,
+                        "out": nodes})
+            nodes += 1
         else:
             ops.append({"op": "set_dtype", "a": a, "to": rng.choice(ALL_DTYPES), "via": rng.choice(["method", "setter"]),
                         "prep": rng.choice([None, None, "fraction", "big", "huge"])})
@@ -365,6 +369,22 @@ def execute(plan, ctx):
                               f"normalize on dtype {pre_dtype} gave {res.dtype}")
             if not op["inplace"]:
                 nodes[op["out"]] = res
+        elif o == "partial_normalize":
+            if type(a).__name__ != "Histogram2D":
+                continue
+            ok, res = attempt(a.partial_normalize, op["axis"], inplace=op["inplace"])
+            ctx.ev("n", "partial_normalize", op["a"], "ok" if ok else exc_tag(res))
+            ctx.abstract("partial_normalize", str(pre_dtype), ok)
+            if not ok:
+                ctx.probe("partial_normalize_failed:" + type(res).__name__)
+                continue
+            consistent(ctx, res, "partial_normalize")
+            if np.dtype(res.dtype).kind != "f":
+                ctx.violation("C13/kind-rules", f"C13/partial_normalize-kind/{pre_dtype.kind}",
+                              f"partial_normalize on dtype {pre_dtype} gave {res.dtype}")
+            if not op["inplace"]:
+                nodes[op["out"]] = res
+                consistent(ctx, a, "partial_normalize-operand")
         elif o == "merge":
             ok, res = attempt(a.merge_bins, op["amount"], inplace=op["inplace"])
             ctx.ev("n", "merge", op["a"], "ok" if ok else exc_tag(res))
